@@ -86,6 +86,8 @@ def run(tier):
     collectlib.run_space(out, 'C07_Items<=%d' % b['n'], 'C07_Items', 'C07_ModDocs', b['n'], _one, sig, limit=b['limit'])
     for dev in ('CollectNestedClass', 'CollectMainGuard', 'CollectSetters', 'VisitFunctionBody', 'NoAsyncVisit'):
         collectlib.deviation_must_fail(out, 'C07_Items', 'C07_ModDocs', 2 if dev != 'CollectSetters' else 3, dev)
+    from . import c17
+    c17.package_phase(out, tier)
     out.exhaustive = not out.extra.get('replay_sampled', False)
     out.assumptions = ['names are unique per item (redefinition of a name is not generated)',
                        'conditional / try / with blocks are transparent both at module level and in a class body']
